@@ -422,7 +422,9 @@ impl<P: Payload + Clone> Recorder<P> {
             }
             self.call(&Call { op: "remove".into(), a: slot, b: 0, v: 0, checked: false, r: vec![] });
             mine = false;
-            if with_copies && i % 5 == 2 {
+            // copies at regular intervals, and right after a removal that retired the slot
+            let retired_now = !self.sim.drain().contains(&slot);
+            if with_copies && (i % 5 == 2 || retired_now) {
                 // a removed (possibly exhausted) slot must survive a serde round trip / a clone unchanged
                 self.identity("round_trip");
                 self.identity("clone_swap");
@@ -533,7 +535,7 @@ fn run_with<P: Payload + Clone>(args: &[String]) -> i32 {
             r.churn(d.new, 200 + (seed % 50) as u32, 3, false);
             r.drive("c17", events, max_slots);
         }
-        "boundary" | "boundary-real" => {
+        "boundary" | "boundary-real" | "boundary-plain" => {
             // C06/C07 at the end of the generation counter of one slot
             let real = mix == "boundary-real";
             r.reset(0);
@@ -584,7 +586,7 @@ fn run_with<P: Payload + Clone>(args: &[String]) -> i32 {
                         }
                     }
                 }
-                r.drive("recycle", 60, 6);
+                r.drive(if mix == "boundary-plain" { "c17" } else { "recycle" }, 60, 6);
             } else if real {
                 r.churn(slot, 32790, if variant == 0 { 0 } else { 4000 + (seed % 7) as u32 }, true);
                 // the last cycles with another slot free at the same time
@@ -594,10 +596,11 @@ fn run_with<P: Payload + Clone>(args: &[String]) -> i32 {
                     eprintln!("harness: fast-forward failed: {}", e);
                     return 2;
                 }
-                r.churn(slot, 60, match variant { 0 => 0, 1 => 1, _ => 3 }, true);
+                // "boundary-plain": without clone / serde copies, so that the history is the same under every feature set
+                r.churn(slot, 60, match variant { 0 => 0, 1 => 1, _ => 3 }, mix != "boundary-plain");
             }
             // and life goes on afterwards
-            r.drive("recycle", 60, 5);
+            r.drive(if mix == "boundary-plain" { "c17" } else { "recycle" }, 60, 5);
         }
         _ => {
             let mut done = 0;
